@@ -121,6 +121,27 @@ impl Abs {
             self.w.get(&(u, v)).copied().unwrap_or(1)
         }
     }
+    /// inverse of `arcs_json`
+    pub fn from_json(v: &serde_json::Value) -> Option<Self> {
+        let mut a = Self::default();
+        for x in v.get("V")?.as_array()? {
+            a.v.insert(x.as_u64()? as usize);
+        }
+        for x in v.get("A")?.as_array()? {
+            let s = x.as_str()?;
+            let (arc, w) = match s.split_once(':') {
+                Some((l, r)) => (l, Some(r.parse::<i128>().ok()?)),
+                None => (s, None),
+            };
+            let (u, t) = arc.split_once("->")?;
+            let k = (u.parse().ok()?, t.parse().ok()?);
+            a.a.insert(k);
+            if let Some(w) = w {
+                a.w.insert(k, w);
+            }
+        }
+        Some(a)
+    }
     pub fn arcs_json(&self) -> serde_json::Value {
         if self.w.is_empty() {
             serde_json::json!({"V": self.v, "A": self.a.iter().map(|&(u, v)| format!("{u}->{v}")).collect::<Vec<_>>()})
